@@ -12,6 +12,10 @@ C17TypedC/D/E.lean) carries it over one event that the blocking semantics allows
 ownership machine accepts the event, `good_prefix` runs it over the whole trace (snoc induction,
 because `Interleaving` speaks about whole projections).
 
+A close may hand tokens to ONE receiver (`recvc_one`): the tokens `closePay c` are at `.clo c` from the
+`close c` until the `recvC c` of `waiter c`; that this `recvC c` comes after the close is the blocking
+semantics (`recvC` needs a closed channel, kept as `GoodT.rc`), that there is no second one is `recvc_one`.
+
 Side conditions of `System.OK` that the proof does not use: `start_head`, `start_root`, the `roots`
 half of `init_thr`, and the `.wgAdd w ∉ post` half of `adds_before`.
 -/
@@ -28,7 +32,7 @@ theorem GoodT.step {S : System} (ok : S.OK) {pre : Trace} {o : OSt} {f f' : FSt}
   | wr x => exact step_wr g cx hF
   | send c => exact step_send g cx hF
   | recv c => exact step_recv g cx hF
-  | close c => exact step_close ok g cx hF
+  | close c => exact step_close g cx hF
   | recvC c => exact step_recvC ok g cx hF
   | lock m => exact step_lock g cx hF
   | unlock m => exact step_unlock g cx hF
